@@ -4,7 +4,8 @@ O1  TX framing on one radio: exactly one W_TX_PAYLOAD(_NOACK) per payload carryi
     zero-padded / truncated / unchanged bytes; ValueError iff dynamic and (n = 0 or n > 32)
     and then nothing reached the radio; the caller's buffer object is untouched.
 O2  RX side: any()/pipe/read() return the FIFO head, in order, each once.
-O3  link: two real drivers on the loss-free medium, configured through public setters only.
+O3  link: two real drivers on the loss-free medium, configured through public setters only; also after a context
+    re-entry, and in both directions between two transceivers that switch roles (reading pipe 0 or 1).
 """
 from checks.common import *  # noqa
 
@@ -171,6 +172,61 @@ def o3_link(ctx, count, pipe, pl, rate, via, reenter=False):
     ctx.reached()
 
 
+def o3_pingpong(ctx, pipe, pl, reply):
+    """two transceivers: each reads on `pipe` (0 or 1) at its own address and transmits to the peer's.  A -> B two payloads; B
+    answers (send_only: its RX FIFO is not its business) BEFORE reading them; then both sides read: everything handed to
+    send() arrives byte-for-byte, once, in order, in both directions"""
+    dynamic = pl is None
+    clock = fresh_env(ctx)
+    med = Medium()
+    ra, a = new_rf24(clock, "A")
+    rb, b = new_rf24(clock, "B")
+    med.add(ra)
+    med.add(rb)
+    chan = ctx.int("channel", 0, 125)
+    addr_a, addr_b = ctx.bytes("addrA", 5), ctx.bytes("addrB", 5)
+    ctx.assume(s_not(bytes_eq(blist(addr_a), blist(addr_b))))
+    for n, own, peer in ((a, addr_a, addr_b), (b, addr_b, addr_a)):
+        n.channel = chan
+        if dynamic:
+            n.dynamic_payloads = True
+        else:
+            n.dynamic_payloads = False
+            n.payload_length = pl
+        n.open_rx_pipe(pipe, own)
+        n.open_tx_pipe(peer)
+    b.listen = True
+    a.listen = False
+    a.open_tx_pipe(addr_b)  # (pipe 0 carries the reading address while listening: the TX pipe is opened again in TX mode, C08)
+    m = [ctx.bytes("m%d" % i, ln) for i, ln in enumerate((3, 32))]
+    r = [ctx.bytes("r%d" % i, ln) for i, ln in enumerate((2, 5))]
+    res = a.send(list(m))
+    ctx.check(res == [True, True], "A's send() reports success on a loss-free compatible link")
+    a.listen = True
+    ctx.check(b.available() == True, "B sees A's payload")  # noqa: E712
+    b.listen = False
+    b.open_tx_pipe(addr_a)
+    if reply == "list":
+        res = b.send(list(r), False, 0, True)
+    elif reply == "list_kw":
+        res = b.send(list(r), send_only=True, force_retry=2)
+    else:
+        res = [b.send(x, send_only=True) for x in r]
+    ctx.check(res == [True, True], "B's send() reports success on a loss-free compatible link")
+    b.listen = True
+    for name, nrf, bufs in (("B", b, m), ("A", a, r)):
+        for i, x in enumerate(bufs):
+            exp = blist(x) if dynamic else pad_trunc(blist(x), pl)
+            ctx.check(nrf.available() == True, name + " has the payload")  # noqa: E712
+            ctx.check(nrf.pipe == pipe, name + ": attributed to the pipe whose address it was sent to")
+            got = nrf.read()
+            ctx.check(got is not None and len(got) == len(exp), name + ": read() has the right length")
+            ctx.check(bytes_eq(got, exp), name + ": read() returns the payload byte-for-byte")
+        ctx.check(nrf.available() == False, name + ": exactly once: nothing else arrives")  # noqa: E712
+    ctx.check(not ra.unspecified and not rb.unspecified, "no use of radio behaviour the specification leaves open")
+    ctx.reached()
+
+
 def jobs(tier):
     out = []
     lens = (0, 1, 2, 31, 32, 33, 40) if tier == "quick" else range(0, 41)
@@ -195,6 +251,10 @@ def jobs(tier):
         out.append(Job("O3-link", o3_link, dict(count=c, pipe=p, pl=pl, rate=r, via=v), cost=5 * c))
     for p, pl in ((1, None), (3, 5), (0, 32)):
         out.append(Job("O3-link-after-context-re-entry", o3_link, dict(count=2, pipe=p, pl=pl, rate=1, via="send", reenter=True), cost=10))
+    for pipe in (0, 1):
+        for pl in ((None, 4) if tier == "quick" else (None, 1, 4, 32)):
+            for reply in ("list", "single") if tier == "quick" else ("list", "list_kw", "single"):
+                out.append(Job("O3-link-both-directions", o3_pingpong, dict(pipe=pipe, pl=pl, reply=reply), cost=12))
     return out
 
 
